@@ -103,6 +103,10 @@ func runC23(e *Env) Outcome {
 	if o.MaxArray < 16 {
 		o.MaxArray = 16
 	}
+	if t.Chance("long-arrays", 1, 6) {
+		// arrays of a few KB: chunks longer than any internal pre-sizing threshold
+		o.MaxArray = 2600
+	}
 	cfg := cfgd.Build()
 	var evs []rec.Ev
 	rejects := 0
